@@ -1008,6 +1008,8 @@ class SymEval:
     def binop(self, op, a: Term, b: Term, node) -> Term:
         nonnum = lambda t: t[0] in ("list", "tuple", "dict", "const", "comp") and not (t[0] == "const")
         if isinstance(op, ast.Add):
+            if a[0] == "const" and b[0] == "const" and isinstance(a[1], str) and isinstance(b[1], str):
+                return T.const(a[1] + b[1])  # "returned_" + "episode_lengths"
             if a[0] in ("list", "tuple") and b[0] == a[0]:
                 return (a[0], a[1] + b[1])
             if nonnum(a) or nonnum(b) or (a[0] == "const" and isinstance(a[1], str)) or (
